@@ -1,8 +1,8 @@
 #!/bin/bash
 # tools/batch_mutants.sh Cxx [checks]  — confirm+keep every mutant under /tmp/mutstore/Cxx/m*
 p=$1; checks=${2:-$1}
-for d in /tmp/mutstore/$p/m*; do
+for d in ${MUTDIR:-/tmp/mutstore}/$p/m*; do
   i=$(basename $d)
   echo "=== $p-$i"
-  python3 /verif/tools/keep_mutant.py $p-$i $p $d --checks $checks 2>&1 | grep -E "\"confirmed\"|demo_clean_exit|demo_patched_exit|baseline_missing|KEPT|NOT KEPT|VIOLATION|error" | cut -c1-300
+  python3 /verif/tools/keep_mutant.py $p-${MUTTAG:-}$i $p $d --checks $checks 2>&1 | grep -E "\"confirmed\"|demo_clean_exit|demo_patched_exit|baseline_missing|KEPT|NOT KEPT|VIOLATION|error" | cut -c1-300
 done
